@@ -421,12 +421,20 @@ class SymBool:
 class SymInt:
     """symbolic integer over Z (windows, ids, thresholds). Comparisons are symbolic; __index__/__int__ concretise by forking
     over the feasible values (the library's own guards bound them)."""
-    __slots__ = ("z", "name")
+    __slots__ = ("z", "name", "domain")
     __array_ufunc__ = None
 
-    def __init__(self, z, name):
+    def __init__(self, z, name, domain=None):
         self.z = z
         self.name = name
+        self.domain = domain     # identifiers it may be compared with: hashing forks over "== c" for c in domain, else 'other'
+
+    def classify(self):
+        """the identifier of the domain this value equals on the current path, or None (differs from all of them)"""
+        for c in self.domain:
+            if bool(self == c):
+                return c
+        return None
 
     def _o(self, o):
         if isinstance(o, SymInt):
@@ -473,11 +481,20 @@ class SymInt:
                 return v
 
     def __index__(self):
+        if self.domain is not None:
+            c = self.classify()
+            if c is None:
+                raise Unsupported("symbolic id outside its identifier domain used as an index")
+            return c
         return self.concretize()
 
     __int__ = __index__
 
     def __hash__(self):
+        if self.domain is not None:
+            # class-forking hash: one path stands for "equals identifier c" per c, and one for "any other value in Z"
+            c = self.classify()
+            return hash(c) if c is not None else hash(("other-id", self.name))
         return hash(self.concretize())
 
     def _asq(self):
